@@ -674,6 +674,9 @@ impl DiskIO {
         }
 
         let coalesced = coalesce_extents(extents)?;
+        // A journal whose generation cannot advance could not be cleared after
+        // the replay; refuse it before the replay writes anything.
+        self.next_journal_position()?;
         self.retire_extents_unjournaled(&coalesced)?;
         self.clear_allocation_journal()
     }
